@@ -92,6 +92,21 @@ func (in *Interp) intrinsic(fn *ssa.Function, args []Value, site *ssa.Call) (Val
 	}
 	switch full {
 	// ----- bytes / strings / bytealg -----
+	case "github.com/bluenviron/gortsplib/v5.cloneFormatShallow":
+		// reflect.New(TypeOf(f).Elem()) + Set(ValueOf(f).Elem()): a shallow copy of the
+		// struct behind the interface (reflection itself is not executed by the engine)
+		iv, ok := args[0].(IfaceV)
+		if !ok || iv.T == nil {
+			in.end("panic", "cloneFormatShallow of a nil format")
+		}
+		src, ok := iv.V.(Pointer)
+		if !ok || src.P == nil {
+			in.unsupported("cloneFormatShallow: format is not a pointer to a struct")
+		}
+		in.stub("cloneFormatShallow: shallow struct copy (reflection not executed)")
+		slot := new(Value)
+		*slot = in.copyVal(*src.P)
+		return IfaceV{T: iv.T, V: Pointer{P: slot}}, true
 	case "crypto/subtle.ConstantTimeCompare":
 		// functional contract: 1 iff same length and same bytes (timing is not modelled)
 		in.stub(full)
